@@ -77,13 +77,17 @@ def rule_LINK(ctx):
         var = ap.args[0].id
         nid = cfg.node_of(ap).id
         # could this append execute with a str value?  find link-category tests on var
-        link_tests = [t for t in cfg.nodes if t.kind == 'test' and
-                      eval_pred(t.expr, var, 'link') is True and
-                      eval_pred(t.expr, var, 'free') is False and
-                      eval_pred(t.expr, var, 'fixed') is False]
+        link_tests = []
+        for t in cfg.nodes:
+            if t.kind != 'test':
+                continue
+            v = eval_pred(t.expr, var, 'link')
+            if v is not None and eval_pred(t.expr, var, 'free') is (not v) and \
+                    eval_pred(t.expr, var, 'fixed') is (not v):
+                link_tests.append((t, v))
         ctx.require(link_tests, 'Prior.add_parameter: no test selecting link entries found')
-        lt = link_tests[0]
-        true_succ = [s for s, lab in lt.succ if lab is True]
+        lt, lpol = link_tests[0]
+        true_succ = [s for s, lab in lt.succ if lab is lpol]
         region = set()
         for s in true_succ:
             region |= cfg.reach(s, include_src=True)
